@@ -56,7 +56,112 @@ func loadJSON(path string, v interface{}) error {
 }
 
 // allObligations generates every obligation of the package (all modes).
-func (pr *Program) allObligations() ([]*Obl, []string, map[string]bool) {
+func (pr *Program) allObligations(props ...string) ([]*Obl, []string, map[string]bool) {
+	wantRel, wantUnary := false, false
+	for _, p := range props {
+		if p == "C10" || p == "C11" {
+			wantRel = true
+		} else {
+			wantUnary = true
+		}
+	}
+	if wantRel && !wantUnary {
+		return pr.relObligations(props)
+	}
+	all, errs, assumed := pr.unaryObligations()
+	if wantRel {
+		a2, e2, as2 := pr.relObligations(props)
+		all = append(all, a2...)
+		errs = append(errs, e2...)
+		for k := range as2 {
+			assumed[k] = true
+		}
+	}
+	return all, errs, assumed
+}
+
+// relObligations: mode R obligations of every function with a relational contract whose
+// property (C10 for sqli*.go, C11 otherwise) is among props.
+func (pr *Program) relObligations(props []string) ([]*Obl, []string, map[string]bool) {
+	want := map[string]bool{}
+	for _, p := range props {
+		want[p] = true
+	}
+	var names []string
+	for n, fc := range pr.Cs.Funcs {
+		fn := pr.Funcs[n]
+		if fn == nil || !fc.Rel {
+			continue
+		}
+		for _, t := range pr.relTagsFor(fn) {
+			if want[t] {
+				names = append(names, n)
+				break
+			}
+		}
+	}
+	// largest first: generation proves its lock-step lemmas sequentially
+	sort.Slice(names, func(i, j int) bool {
+		bi, bj := len(pr.Funcs[names[i]].Blocks), len(pr.Funcs[names[j]].Blocks)
+		if bi != bj {
+			return bi > bj
+		}
+		return names[i] < names[j]
+	})
+	type res struct {
+		c *Ctx
+		n string
+	}
+	results := make([]res, len(names))
+	sem := make(chan struct{}, 5)
+	done := make(chan int)
+	for i, n := range names {
+		go func(i int, n string) {
+			sem <- struct{}{}
+			c := pr.verifyRelational(pr.Funcs[n])
+			<-sem
+			results[i] = res{c, n}
+			done <- i
+		}(i, n)
+	}
+	for range names {
+		<-done
+	}
+	var all []*Obl
+	var errs []string
+	assumed := map[string]bool{}
+	for _, r := range results {
+		c := r.c
+		for k := range c.usedAssumed {
+			assumed[k] = true
+		}
+		if c.rel != nil {
+			relLemmaStats.tried += c.rel.lemmasTried
+			relLemmaStats.proved += c.rel.lemmas
+			relLemmaStats.ms += c.rel.lemmaMS
+		}
+		if len(c.errs) > 0 {
+			o := &Obl{Name: r.n + "/rel/generator/supported#1", Func: r.n, Kind: "generator", Tags: pr.relTagsFor(pr.Funcs[r.n]), Status: "unknown",
+				Detail: strings.Join(c.errs, " | "), Text: "the function is inside the verifier's subset (mode R)"}
+			all = append(all, o)
+			for _, e := range c.errs {
+				errs = append(errs, r.n+": "+e)
+			}
+		}
+		for _, o := range c.obls {
+			if o.Func == "" {
+				o.Func = r.n
+			}
+		}
+		all = append(all, c.obls...)
+	}
+	sort.SliceStable(all, func(i, j int) bool { return all[i].Name < all[j].Name })
+	return all, errs, assumed
+}
+
+var relLemmaStats struct{ tried, proved, ms int }
+
+func (pr *Program) unaryObligations() ([]*Obl, []string, map[string]bool) {
 	var names []string
 	called := map[string]bool{}
 	for _, f := range pr.Funcs {
@@ -129,7 +234,7 @@ var genLock = make(chan struct{}, 1)
 
 func contractLevel(o *Obl) bool {
 	switch o.Kind {
-	case "ensures", "invariant-entry", "invariant-step", "decreases", "rank", "table", "purity", "frame", "lemma":
+	case "ensures", "invariant-entry", "invariant-step", "decreases", "rank", "table", "purity", "frame", "lemma", "rel":
 		return true
 	}
 	return false
@@ -209,7 +314,7 @@ func cmdCheck(args []string) {
 		timeout = 60
 	}
 	pr := setup()
-	all, genErrs, assumed := pr.allObligations()
+	all, genErrs, assumed := pr.allObligations(prop)
 	var sel []*Obl
 	for _, o := range all {
 		if hasTag(o, prop) {
@@ -392,6 +497,14 @@ func cmdCheck(args []string) {
 		"package-level tables are constants after initialisation (re-established on every run by the mode M obligations of C05); their contents are read from the compiled package on this run",
 		"callee contracts and base invariants used as assumptions here are discharged under the properties they are tagged with (C01/C02 for untagged ones)",
 	)
+	if prop == "C10" || prop == "C11" {
+		asm = append(asm,
+			"mode R (two-run): the unary contracts (loop invariants, callee postconditions) of the functions are imported as assumptions in both runs; they are discharged by the checks of C01/C02/C16 (only clauses tagged with those or untagged are imported)",
+			"mode R: strings are related at equal offsets (a string value is an (array, offset, length) triple and no operation observes the offset)",
+			"mode R: auxiliary lock-step lemmas (both runs reach a block under the same condition; partner library searches find matches at the same indices) are proved on the spot by the solvers from the assumptions made so far and only then used; an unproved lemma is not assumed",
+			"mode R: recursion and loops: the relational contract of a callee / the relation at a loop head is used inductively (partial correctness; termination is C01/C02)",
+		)
+	}
 	var samples []map[string]string
 	for _, o := range sel {
 		if len(samples) >= 3 {
@@ -451,6 +564,7 @@ func cmdCheck(args []string) {
 			"generator_errors":         genErrs,
 			"bounded":                  boundedEv,
 			"unstable_under_seeds":     len(unstable),
+			"mode_R_lemmas":            map[string]int{"tried": relLemmaStats.tried, "proved_and_used": relLemmaStats.proved, "solver_ms": relLemmaStats.ms},
 			"cvc5_cross_checked":       crossChecked,
 			"cvc5_cross_agreed":        crossAgreed,
 		},
@@ -512,7 +626,7 @@ func cmdBaseline() {
 // cmdExpected records the contract-level obligations and counts per property on the current tree.
 func cmdExpected(props []string) {
 	pr := setup()
-	all, _, _ := pr.allObligations()
+	all, _, _ := pr.allObligations(props...)
 	exp := Expected{Named: map[string][]string{}, Count: map[string]int{}}
 	for _, p := range props {
 		seen := map[string]bool{}
